@@ -820,13 +820,28 @@ def link_table_rebuilt(ctx):
     time, and one change of an object sends the TPDO once per earlier start."""
     m = ctx.m
     f = 'COTPdoInit'
-    m.need(f, 'COTPdoMapClear', 'COTPdoMapAdd')
+    m.need(f, 'COTPdoMapAdd')
     props = ['C12', 'C09']
     g = m.cfg(f)
+    LINK_OBJ = ('CO_TPDO_LINK', 'Obj')
 
     def reaches(callee, target):
         return callee is not None and (callee == target or target in m.reachable_funcs([callee]))
-    clear = set(nd.id for nd in g.nodes if nd.x is not None and any(c.k == 'call' and reaches(callee_name(c), 'COTPdoMapClear') for c in walk(nd.x)))
+
+    def clears_table(fn_name):
+        # a loop over the link table that stores a null object into every entry (the helper may have been inlined)
+        g2 = m.cfg(fn_name)
+        heads = set()
+        for lp in g2.loops:
+            for nid in lp.nodes:
+                nd = g2.nodes[nid]
+                if nd.x is not None and any(const_eval(rhs, m) == 0 for (l_, rhs, n_) in m.field_stores(nd.x, LINK_OBJ) if rhs is not None):
+                    heads.add(lp.head)
+        return heads
+    clear = set(nd.id for nd in g.nodes if nd.x is not None and any(
+        c.k == 'call' and callee_name(c) in m.funcs and callee_name(c) != 'COTPdoMapAdd' and not reaches(callee_name(c), 'COTPdoMapAdd')
+        and clears_table(callee_name(c)) for c in walk(nd.x)))
+    clear |= clears_table(f)
     adders = [nd for nd in g.nodes if nd.x is not None and nd.id not in clear and
               any(c.k == 'call' and reaches(callee_name(c), 'COTPdoMapAdd') for c in walk(nd.x))]
     ctx.require_min(props, 'RF2-tpdo-links', len(adders), 1, 'calls in COTPdoInit that (re)build object -> TPDO links')
